@@ -60,6 +60,9 @@ RULES = [
      "with the same receiver (extern \"C\" void nv_cb_onClosed(void*)); only the occurrence inside the write-ready branch is sliced"),
     ("src/Socket/Server.cpp", "literal", "client._callback->onWrite();", "nv_cb_onWrite(client._callback);", 1,
      "R9: as above for onWrite"),
+    ("include/nstd/Process.hpp", "literal", 'static bool daemonize(const String& logFile = "/dev/null");',
+     "static bool daemonize(const String& logFile);", 1,
+     "R11: default argument built from a string literal needs the String literal constructor deleted by R2; declaration only, not part of any slice"),
     ("src/String.cpp", "literal", "  char* dest = result;\n", "  char* dest = result.nvMutable();\n", 1,
      "R4: call site of the renamed conversion operator (String::fromHex)"),
     ("src/String.cpp", "literal", "    char* out = (char*)result;\n", "    char* out = result.nvMutable();\n", 1,
@@ -76,6 +79,9 @@ SLICES = [
     ("src/String.cpp", "src/String.codecs.slice.cpp",
      ["String String::fromHex(const byte* data, usize size)", "String String::fromBase64(const String& data)"],
      "#include <nstd/String.hpp>\n", ["String::EmptyData String::emptyData;"]),
+    ("src/Process.cpp", "src/Process.args.slice.cpp",
+     ["bool Process::Arguments::nextChar()", "bool Process::Arguments::read(int& character, String& argument)"],
+     "#include <nstd/Process.hpp>\n", []),
 ]
 
 
